@@ -3108,6 +3108,13 @@ class Mailbox:
         else:
             raise MailboxExists(f"Destination mailbox '{new_name}' exists")
 
+        # A mailbox can not be moved underneath itself.
+        #
+        if new_name.startswith(mbox.name + "/"):
+            raise InvalidMailbox(
+                f"Can not rename '{old_name}' to its own inferior '{new_name}'"
+            )
+
         # If the new name has superior hierarchical names that do not exist
         # yet they are created (rfc3501 section 6.3.5).
         #
